@@ -27,12 +27,12 @@ import shutil
 from common import SPEC, Check, ToolError, batch, scratch_dir, tlc, tlc_ok, vacuity
 
 
-def mc(files, names, restrict):
+def mc(files, names, restrict, redefine=False):
     name = f"MC_Imports_{os.getpid()}.cfg"
     fs = ", ".join(f'"{f}"' for f in files)
     ns = ", ".join(f'"{n}"' for n in names)
     with open(os.path.join(SPEC, name), "w") as f:
-        f.write(f'CONSTANTS\n  Files = {{{fs}}}\n  Names = {{{ns}}}\n  Restrict = {"TRUE" if restrict else "FALSE"}\n'
+        f.write(f'CONSTANTS\n  Files = {{{fs}}}\n  Names = {{{ns}}}\n  Restrict = {"TRUE" if restrict else "FALSE"}\n  Redefine = {"TRUE" if redefine else "FALSE"}\n'
                 'INIT Init\nNEXT Next\nINVARIANT Terminates\nINVARIANT Emit\nCHECK_DEADLOCK FALSE\n')
     try:
         res = tlc("MC_Imports", cfg=name, workers=8, timeout=3000, heap="8g")
@@ -55,9 +55,9 @@ def file_text(proj, f):
         elif cfg["imps"][g] == "alias":
             imps.append(f'import "./{fname(g)}" as ns{g.lower()}\n')
     for n in sorted(cfg["defs"]):
-        if cfg["defs"][n] != "none":
-            vis = "public " if cfg["defs"][n] == "public" else ""
-            defs.append(f'{vis}fun {n}(): String {{ "{f}.{n}" }}\n')
+        kinds = {"none": [], "private": [False], "public": [True], "pubpriv": [True, False], "privpub": [False, True]}[cfg["defs"][n]]
+        for pub in kinds:
+            defs.append(f'{"public " if pub else ""}fun {n}(): String {{ "{f}.{n}" }}\n')
     via = []
     for n in sorted(cfg["defs"]):
         via.append(f'public fun via_{f.lower()}_{n}(): String {{ {n}() }}\n')
@@ -81,7 +81,7 @@ def probes(proj, r, table):
         if proj[f]["defs"][n] != "none":
             o.add(f)
         for g in files:
-            if proj[f]["imps"][g] == "plain" and proj[g]["defs"][n] == "public":
+            if proj[f]["imps"][g] == "plain" and proj[g]["defs"][n] in ("public", "privpub"):
                 o.add(g)
         return o
 
@@ -124,9 +124,12 @@ def run(tier, seed):
     ck.add_tlc(r1)
     r2 = mc(["A", "B", "C"], ["p"], True)
     ck.add_tlc(r2)
+    r3 = mc(["A", "B"], ["p"], False, redefine=True)
+    ck.add_tlc(r3)
     all2, all3 = list(r1.tag("PROJECT")), list(r2.tag("PROJECT"))
-    vacuity(len(all2) == 26244 and len(all3) == 19683, f"projects enumerated: {len(all2)} + {len(all3)}")
-    deviating = [p for p in all2 + all3 if not all(t["rootAgrees"] and t["innerAgrees"] for t in p["roots"].values())]
+    allr = [p for p in r3.tag("PROJECT") if any(v in ("pubpriv", "privpub") for f in p["proj"].values() for v in f["defs"].values())]
+    vacuity(len(all2) == 26244 and len(all3) == 19683 and len(allr) > 4000, f"projects enumerated: {len(all2)} + {len(all3)} + {len(allr)}")
+    deviating = [p for p in all2 + all3 + allr if not all(t["rootAgrees"] and t["innerAgrees"] for t in p["roots"].values())]
 
     def cyclic(p):
         pr = p["proj"]
@@ -138,7 +141,7 @@ def run(tier, seed):
 
     def interesting(p):
         return sum(1 for f in p["proj"].values() for v in f["imps"].values() if v != "none") >= 2 and \
-            any(v == "public" for f in p["proj"].values() for v in f["defs"].values())
+            any(v in ("public", "pubpriv", "privpub") for f in p["proj"].values() for v in f["defs"].values())
     pool2 = [p for p in all2 if interesting(p)]
     pool3 = [p for p in all3 if interesting(p)]
     rnd.shuffle(pool2)
@@ -146,7 +149,9 @@ def run(tier, seed):
     rnd.shuffle(deviating)
     cyc3 = [p for p in pool3 if cyclic(p) and any(v == "plain" for f in p["proj"].values() for v in f["imps"].values())]
     n2, n3, nd = (120, 60, 60) if tier == "quick" else (2500, 1200, 1200)
-    chosen = pool2[:n2] + pool3[:n3] + (deviating + cyc3)[:nd]
+    poolr = [p for p in allr if interesting(p) or any(v != "none" for f in p["proj"].values() for v in f["imps"].values())]
+    rnd.shuffle(poolr)
+    chosen = pool2[:n2] + pool3[:n3] + (deviating + cyc3)[:nd] + poolr[:40 if tier == "quick" else 800]
     for p in chosen:
         p["cyclic"] = cyclic(p)
     base = scratch_dir("c34")
